@@ -85,7 +85,8 @@ def run(ctx):
     ctx.cov["trusted_base"] = ["harness/values.py", "the method-name classification and substring tests in harness/dispatcher_run.py",
                                "json of the standard library", "TLC"]
     ctx.assumptions += ["empty request body: -32600 or -32700 accepted", "a TypeError raised inside a method body: -32602 or -32603 accepted",
-                        "C03: ids that are __jsonclass__ descriptors are outside the id domain (they are translated objects)"]
+                        "C03: ids that are __jsonclass__ descriptors are outside the id domain (they are translated objects)",
+                        "numeric literals that overflow to a non-finite float (1e999) are treated like the excluded literals Infinity / NaN"]
     files = record(ctx, ctx.tier == "quick")
     ctx.cov["traces_validated_against_impl"] = judge_files(ctx, files, mine)
 
